@@ -109,7 +109,7 @@ Proof.
   { apply np_bind.
     - unfold refreq_decode. replace (blen m >? 65535) with false by lia.
       destruct (slice m 0 2); [apply np_ok|apply np_err].
-    - intros [plen off] _. destruct (_ || _); [apply np_ok|apply np_err]. }
+    - intros [plen off] _. destruct (_ =? _); [apply np_ok|apply np_err]. }
   destruct (_ && _); apply np_ok.
 Qed.
 
